@@ -5,7 +5,6 @@
 # Standard library imports
 import ast
 import copy
-import re
 from typing import Any, Dict, List, Tuple, Set
 
 # Third party imports
@@ -34,7 +33,7 @@ def encode_h5attr(data: Any) -> Any:
     try:
         # Verify that decoding works
         decode_h5attr(copy.deepcopy(encoded_data))
-    except ValueError:
+    except (ValueError, SyntaxError):
         raise TypeError(error_msg)
 
     return encoded_data
@@ -43,16 +42,28 @@ def encode_h5attr(data: Any) -> Any:
 def decode_h5attr(attr: Any) -> Any:
     """Convert hdf5 attribute back to its original datatype"""
     try:
-        attr_type, _, attr = attr.partition(" ")
-        if "nan" in attr or "inf" in attr:
-            # ast.literal_eval does not understand that nan and inf are floats. convert these to strings
-            attr = re.sub(r"\bnan\b", "'nan'", attr)
-            attr = re.sub(r"\binf\b", "'inf'", attr)
-            attr = re.sub(r"-'\binf\b'", "'-inf'", attr)
-        result = globals()[f"_h5attr2{attr_type}"](attr)
-        return _recursive_replace(result)
+        attr_type, _, text = attr.partition(" ")
+        return globals()[f"_h5attr2{attr_type}"](text)
     except (AttributeError, KeyError):
         return attr
+
+
+class _NanInf(ast.NodeTransformer):
+    """Replace the names nan and inf, as str() writes these floats, by the floats themselves"""
+
+    def visit_Name(self, node):
+        if node.id in ("nan", "inf"):
+            return ast.copy_location(ast.Constant(float(node.id)), node)
+        return node
+
+
+def _literal_eval(attr: str) -> Any:
+    """Evaluate a string written by str() on lists, tuples, sets and dicts of basic types
+
+    ast.literal_eval does not understand that nan and inf are floats. They are replaced in the syntax tree, so
+    that strings containing these words are left alone.
+    """
+    return ast.literal_eval(_NanInf().visit(ast.parse(attr.lstrip(" \t"), mode="eval")))
 
 
 def _list2h5attr(data: List[str]) -> str:
@@ -87,51 +98,30 @@ def _h5attr2list(attr: str) -> List[str]:
     """Convert an HDF5 attribute to a list of strings"""
     if not attr or attr == "list()":
         return list()
-    return ast.literal_eval(attr)
+    return _literal_eval(attr)
 
 
 def _h5attr2tuple(attr: str) -> Tuple[str, ...]:
     """Convert an HDF5 attribute to a list of strings"""
     if not attr or attr == "tuple()":
         return tuple()
-    return ast.literal_eval(attr)
+    return _literal_eval(attr)
 
 
 def _h5attr2set(attr: str) -> Set[str]:
     """Convert an HDF5 attribute to a list of strings"""
     if not attr or attr == "set()":
         return set()
-    return ast.literal_eval(attr)
+    return _literal_eval(attr)
 
 
 def _h5attr2dict(attr: str) -> List[str]:
     """Convert an HDF5 attribute to a dictionary of strings"""
     if not attr or attr == "dict()":
         return dict()
-    return ast.literal_eval(attr)
+    return _literal_eval(attr)
 
 
 def _h5attr2str(attr: str) -> str:
     """Simply return the string"""
     return attr
-
-
-def _recursive_replace(data):
-    """Searches data structure and replaces 'nan' and 'inf' with respective float values"""
-    if isinstance(data, str):
-        if data == "nan":
-            return float("nan")
-        if data == "inf":
-            return float("inf")
-        if data == "-inf":
-            return -float("inf")
-    if isinstance(data, List):
-        return [_recursive_replace(v) for v in data]
-    if isinstance(data, Tuple):
-        return tuple([_recursive_replace(v) for v in data])
-    if isinstance(data, Set):
-        return set([_recursive_replace(v) for v in data])
-    if isinstance(data, Dict):
-        return {k: _recursive_replace(v) for k, v in data.items()}
-    return data
-
